@@ -53,13 +53,18 @@ class World:
             return ("p%sn%d" % ("x" if p is None else p, k)).ljust(n, "z")[:n]
         ld.rand_chars = rand_chars
         self.examined = {}
+        self.examined_hold = {}
+        self.mon_st = None
         self.stealing = {}
         orig_fb = ld.LockDir.force_break
         orig_hc = ld.LockDir._handle_lock_contention
         w = self
 
         def force_break(self_, info):
-            w.examined[getattr(store.tl, "proc", None)] = _N(info.nonce) if isinstance(info, LockHeldInfo) else None
+            p_ = getattr(store.tl, "proc", None)
+            w.examined[p_] = _N(info.nonce) if isinstance(info, LockHeldInfo) else None
+            # which *holding* (acquisition number) that info was read from: the caller's last look at held/info
+            w.examined_hold[p_] = (w.mon_st or {}).get("peek_hold", {}).get(p_)
             return orig_fb(self_, info)
 
         def handle(self_, other):
@@ -214,6 +219,13 @@ def make_bodies(w, kinds, lds):
 
 def make_monitor(w, lds, init_kind):
     st = {"prev": disk_info(w.store), "exempt": set(), "states": set(), "nsteps": [0] * 8}
+    # holdings are identified by acquisition number, not by nonce (two holdings that write the same
+    # nonce are still two locks): hold = number of the holding now on disk (0 = the initial one)
+    st["hold"] = 0
+    st["nholds"] = 1 if st["prev"] is not None else 0
+    st["peek_hold"] = {}
+    st["nonces"] = {st["prev"].get("nonce")} if st["prev"] else set()
+    w.mon_st = st
     me = w.me
 
     def monitor(sim, ch, op):
@@ -222,6 +234,16 @@ def make_monitor(w, lds, init_kind):
         v = None
         if op is not None and op.kind == "get" and op.path == "/lock/held/info":
             st.setdefault("last_peek", {})[ch] = prev.get("nonce") if prev else None
+            st["peek_hold"][ch] = st["hold"] if prev else None
+        if (op is not None and op.kind == "rename" and op.path2 == "/lock/held" and not op.failed):
+            now = disk_info(store)
+            if now is not None:
+                st["hold"] = st["nholds"]
+                st["nholds"] += 1
+                if now.get("nonce") in st["nonces"]:
+                    v = ("acquire:new-holding-indistinguishable-from-an-earlier-one(same-nonce)",
+                         {"locker": ch, "holding": st["hold"]})
+                st["nonces"].add(now.get("nonce"))
         if op is not None and op.kind == "rename" and op.path == "/lock/held" and "/broken." in (op.path2 or ""):
             # did the rename succeed?  the broken dir exists now
             if store.raw().has(op.path2.lstrip("/")):
@@ -237,6 +259,9 @@ def make_monitor(w, lds, init_kind):
                              {"breaker": ch, "stealing": bool(w.stealing.get(ch))})
                     else:
                         v = ("force_break:broke-lock-it-had-seen-to-differ", {"breaker": ch})
+                elif w.examined_hold.get(ch) is not None and w.examined_hold.get(ch) != st["hold"]:
+                    v = ("force_break:removed-later-holding-than-the-one-examined",
+                         {"breaker": ch, "examined_holding": w.examined_hold.get(ch), "removed_holding": st["hold"]})
                 else:
                     for k, l in lds.items():
                         if l.is_held and _N(l.nonce) == removed:
@@ -324,6 +349,7 @@ def run_one(scn, prefix):
     w.store.log.clear()
     w.counters.clear()
     w.examined.clear()
+    w.examined_hold.clear()
     w.stealing.clear()
     lds = {}
     bodies = make_bodies(w, kinds, lds)
